@@ -514,8 +514,20 @@ def _freeze(x):
     return x
 
 
+class Watchdog(Exception):
+    """Raised inside a session that exceeds its time limit (a generated program can make jesse ping-pong forever inside one
+    candle, e.g. wrong-side exits larger than the position flipping it back and forth); the run then counts as aborted."""
+
+
+def _alarm(signum, frame):
+    raise Watchdog('session exceeded its time limit')
+
+
 def run(spec, obs='light', clean_globals=True, check_args=False):
     """Runs one session. Returns dict(result, error, trace, final, orders)."""
+    import signal
+    import threading
+    use_alarm = threading.current_thread() is threading.main_thread() and hasattr(signal, 'setitimer')
     import jesse.helpers as jh
     from jesse import research
     ctx = Ctx(spec, obs)
@@ -538,6 +550,11 @@ def run(spec, obs='light', clean_globals=True, check_args=False):
     result, error = None, None
     frozen = _freeze(dict(config=config, routes=routes, data_routes=data, candles=candles, warmup_candles=warm, hyperparameters=spec.get('hp'))) if check_args else None
     hp_arg = spec.get('hp')
+    n_min = max(len(v['candles']) for v in candles.values())
+    limit = float(spec.get('time_limit', 20 + n_min / 40))
+    if use_alarm:
+        old_handler = signal.signal(signal.SIGALRM, _alarm)
+        signal.setitimer(signal.ITIMER_REAL, limit)
     try:
         result = research.backtest(config, routes, data, candles, warmup_candles=warm, hyperparameters=hp_arg,
                                    fast_mode=bool(spec.get('fast')))
@@ -545,6 +562,9 @@ def run(spec, obs='light', clean_globals=True, check_args=False):
         import traceback
         error = dict(type=type(e).__name__, msg=str(e)[:500], tb=traceback.format_exc()[-1500:])
     finally:
+        if use_alarm:
+            signal.setitimer(signal.ITIMER_REAL, 0)
+            signal.signal(signal.SIGALRM, old_handler)
         CURRENT[0] = None
         rec.uninstall()
     orders = []
